@@ -58,6 +58,17 @@ func NewRng(seed uint64, idx uint64) *Rng {
 	return r
 }
 
+// markCase marks the start of case idx for the watchdog in families that enumerate instead of drawing from NewRng
+func markCase(idx uint64) {
+	if wdDir.Load() != nil {
+		wdIndex.Store(int64(idx))
+		wdStart.Store(time.Now().Unix())
+		if wdProg != nil {
+			wdProg.WriteAt([]byte(fmt.Sprintf("%-12d", idx)), 0)
+		}
+	}
+}
+
 // auxRng is a generator that does not mark the start of a case
 func auxRng(seed uint64, idx uint64) *Rng {
 	r := &Rng{s: seed*0x9E3779B97F4A7C15 + idx*0xBF58476D1CE4E5B9 + 0x94D049BB133111EB}
